@@ -243,6 +243,8 @@ class SymbolicInputs:
             raise self.ch.IgnoreAttempt("assume")
 
     def note(self, key, value=True):
+        if isinstance(value, (bool, int, float, str)):      # proxies included (isinstance is patched): realise
+            value = self.ch.deep_realize(value)
         self.notes[key] = value
 
     def now_symbolic(self, loop):
